@@ -35,7 +35,11 @@ func VerifKernelFloydWarshall() {
 	const n = 8
 	const dist, path = 0x4000, 0x5000
 	mem := &ZzvMem{B: make([]byte, 0x6000)}
-	k := []uint32{0, 3, 7}[verif.Choice(3)]
+	ks := []uint32{0, 3, 7}
+	if verif.Param("deep", 0) == 1 {
+		ks = []uint32{0, 1, 2, 3, 4, 5, 6, 7}
+	}
+	k := ks[verif.Choice(len(ks))]
 	var d, p [n * n]uint32
 	for i := range d {
 		d[i], p[i] = verif.U32(), verif.U32()
@@ -49,6 +53,9 @@ func VerifKernelFloydWarshall() {
 	// for all others its outcome is fixed by an assumption (all update / none
 	// updates), otherwise the emulator forks per lane (2^64 paths)
 	openPairs := [][2]uint32{{0, 63}, {k*n + 3, 3*n + k}, {27, 36}}
+	if verif.Param("deep", 0) == 1 {
+		openPairs = append(openPairs, [2]uint32{k*n + k, 9}, [2]uint32{1, 8}, [2]uint32{62, 55})
+	}
 	op := openPairs[verif.Choice(len(openPairs))]
 	others := verif.Choice(2) == 1
 	for y := uint32(0); y < n; y++ {
@@ -158,7 +165,7 @@ func VerifKernelFastWalsh() {
 }
 
 // VerifKernelBitonicSort: amdappsdk/bitonicsort (GCN3 image), the complete
-// sort of 8 symbolic values = 6 kernel launches (stage, pass) of 4 work-items
+// sort of 4 symbolic values = 3 kernel launches (stage, pass) of 2 work-items
 // each in a clipped work-group of 64, ascending or descending: the final
 // array is sorted (Benchmark.Verify) and equals the reference sorting network
 // applied to the same input (so it is a permutation of the input).
@@ -167,7 +174,7 @@ func VerifKernelBitonicSort() {
 	if co == nil {
 		return
 	}
-	const n = 8
+	const n = 4
 	const arr = 0x4000
 	mem := &ZzvMem{B: make([]byte, 0x5000)}
 	dir := uint32(verif.Choice(2))
@@ -177,7 +184,7 @@ func VerifKernelBitonicSort() {
 		mem.Put32(arr+uint64(4*i), ref[i])
 	}
 	alu := NewALU(mem)
-	for stage := uint32(0); stage < 3; stage++ {
+	for stage := uint32(0); stage < 2; stage++ {
 		for pass := uint32(0); pass <= stage; pass++ {
 			mem.Put64(ZzvKernargAddr+0, arr)
 			mem.Put32(ZzvKernargAddr+8, stage)
